@@ -32,7 +32,12 @@ LMet  == Lam1("e", Meth(Name("e"), "met", <<>>))
 LJets == Lam1("e", Meth(Name("e"), "jets", <<>>))
 LNest == Lam1("e", Meth(Meth(Name("e"), "jets", <<>>), "Select", <<Lam1("j", Meth(Name("j"), "pt", <<>>))>>))
 LNestTyped == Lam1("e", Meth(Meth(Name("e"), "jets", <<>>), "Select", <<Lam1("j", Meth(Name("j"), "pt", <<IntC(1)>>))>>))
-Emitted(lam, inType) == IF lam = LNest /\ inType = "Evt" THEN LNestTyped ELSE lam
+LCut == Lam1("e", Cmp(">", Meth(Name("e"), "met", <<>>), IntC(1)))
+LMetTyped == Lam1("e", Meth(Name("e"), "met", <<IntC(4)>>))
+LCutTyped == Lam1("e", Cmp(">", Meth(Name("e"), "met", <<IntC(4)>>), IntC(1)))
+Emitted(lam, inType) == IF inType # "Evt" THEN lam
+                        ELSE CASE lam = LNest -> LNestTyped [] lam = LMet -> LMetTyped
+                               [] lam = LCut -> LCutTyped [] OTHER -> lam
 StreamType(op, lam, inType) ==
     CASE op = "Where" -> inType
       [] inType # "Evt" -> "Any"
